@@ -62,6 +62,10 @@ RefWrite(g, r, b) ==
     [] b = HT -> RefTab(g, r, g.tab)
     [] OTHER  -> RefPut(g, r, b)
 
+\* a byte stream written with one call (io.Writer): the bytes one after the other
+RECURSIVE RefWriteAll(_, _, _, _)
+RefWriteAll(g, r, bs, i) == IF i > Len(bs) THEN r ELSE RefWriteAll(g, RefWrite(g, r, bs[i]), bs, i + 1)
+
 Clip(v, hi) == IF v < 1 THEN 1 ELSE IF v > hi THEN hi ELSE v
 RefSetCursor(g, r, x, y) == [r EXCEPT !.x = Clip(x, g.w), !.y = Clip(y, g.h)]
 
@@ -72,6 +76,7 @@ Flat(g, r) == [i \in 1..(g.w * TH(g)) |-> r.lines[((i - 1) \div g.w) + 1][((i - 
 (* Events (one per call of the terminal API, logged after the call returns) *)
 (*   attach : w h sb tab dfg dbg  + observation                             *)
 (*   w      : b                    WriteByte(b)                              *)
+(*   ws     : bs n                 Write(bs) returned n (and no error)       *)
 (*   cur    : x y                  SetCursorPosition(x, y)  (saturated)      *)
 (*   st     : a                    SetState(a)  a = 1 active, 0 inactive     *)
 (* observation: res ("ok" | "panic" | "err" | "hang"), cx cy (CursorPosition()), *)
@@ -86,6 +91,7 @@ R0 == [lines |-> <<>>, top |-> 0, x |-> 0, y |-> 0]
 RefAfter(g, r, e) ==
   CASE e.k = "attach" -> RefInit(g)
     [] e.k = "w"      -> RefWrite(g, r, e.b)
+    [] e.k = "ws"     -> RefWriteAll(g, r, e.bs, 1)
     [] e.k = "cur"    -> RefSetCursor(g, r, e.x, e.y)
     [] OTHER          -> r                     \* state changes do not concern the terminal contents
 
@@ -98,6 +104,8 @@ Checks17(g, r2, e) ==
   IN
   << <<"C17", ~ok,
        <<"terminal call did not complete (panic: how Go shows a write outside the buffer; hang: it never returned)", e.k, e.res>> >>,
+     <<"C17", ok /\ e.k = "ws" /\ e.n # Len(e.bs),
+       IF e.k # "ws" THEN <<>> ELSE <<"Write accepted", e.n, "of", Len(e.bs), "bytes">> >>,
      <<"C17", ok /\ ~(e.cx \in 1..g.w /\ e.cy \in 1..g.h),
        <<"cursor outside the viewport", e.cx, e.cy, "viewport", g.w, g.h>> >>,
      <<"C17", ok /\ (e.cx # r2.x \/ e.cy # r2.y),
